@@ -33,7 +33,14 @@ struct vbuf {
 #ifndef VP_MAXDIM
 #define VP_MAXDIM 4
 #endif
-struct src_base { int w = 0, h = 0; void dims() { w = vp_range(0, VP_MAXDIM); h = vp_range(0, VP_MAXDIM); } };
+// FIXW/FIXH: concrete view dimensions (a shape parameter of the query) instead of symbolic ones
+struct src_base { int w = 0, h = 0; void dims() {
+#ifdef FIXW
+    w = FIXW; h = FIXH;
+#else
+    w = vp_range(0, VP_MAXDIM); h = vp_range(0, VP_MAXDIM);
+#endif
+} };
 
 // interleaved, padded rows
 template <class Pixel> struct src_interleaved : src_base {
